@@ -26,9 +26,6 @@ func (c *checkDef) Owns(prop string) bool {
 
 func racePackages() []string { return []string{"./cache"} }
 
-type raceReport struct{ key, text string }
-
-func parseRaceReports(txt string) []raceReport { return nil }
 
 var commonAssumptions = []string{
 	"context switches happen only at sync operations, channel operations, utils/atomics calls, spawn/exit and explicit harness yields (DESIGN.md A1)",
@@ -105,7 +102,47 @@ func checkC13() *checkDef {
 }
 
 func allChecks() []*checkDef {
-	return []*checkDef{checkC01(), checkC12(), checkC13(), checkC14()}
+	return []*checkDef{checkC01(), checkC12(), checkC13(), checkC14(), checkC15()}
+}
+
+// schedScenariosOf extracts the cache/sched parameter sets of a check (they double as
+// race-oracle scenarios for C15).
+func schedScenariosOf(c *checkDef, tier string) []sched {
+	var out []sched
+	for _, r := range c.Runs(tier) {
+		if r.Scenario == "cache/sched" {
+			out = append(out, r.Params.([]sched)...)
+		}
+	}
+	return out
+}
+
+func checkC15() *checkDef {
+	return &checkDef{
+		ID: "C15", Title: "Shared proxy state is free of data races", Level: "model_checking",
+		LevelText: "The Go race detector is run inside the schedule explorer: for every explored schedule (K preemptions) of the concurrent scenarios of C01, C12, C13 and C14 (and the scenarios that exist only here), the detector judges whether two conflicting accesses are unordered by the happens-before relation of that schedule. The scheduler's hand-offs are hidden from the detector (runtime.RaceDisable, //go:norace shims, no maps/closures/fmt in shim code) and the shim lock/waitgroup/once emit exactly the acquire/release edges of the real primitives, so only the code's own synchronisation orders accesses. Each report is normalised to the unordered pair of innermost reservoir frames + access kinds and matched against known_findings.json.",
+		LevelNote: "Trusted: ThreadSanitizer's happens-before tracking and its bounded history (executions are a few hundred accesses long), the edge model of vsync (mirrors sync.RWMutex's readerSem/writerSem scheme), the discard log handler (A4). A race is reported once per worker process by the detector; the schedule recorded is the one during which it was first reported.",
+		Technique: "happens-before race oracle evaluated on every schedule of a preemption-bounded exhaustive schedule enumeration of the implementation",
+		DesignRef: "DESIGN.md section 3 E2, section 4 C15",
+		Rule:        "all schedules within K/F/E of each concurrent scenario in a -race build; distinct by choice sequence; non-trivial = distinct outcome digest",
+		Assumptions: commonAssumptions,
+		Runs: func(tier string) []run {
+			k := 1
+			if tier == "thorough" {
+				k = 2
+			}
+			var ps []sched
+			for _, c := range []*checkDef{checkC01(), checkC12(), checkC13(), checkC14()} {
+				for _, sc := range schedScenariosOf(c, "quick") {
+					sc.Prop = "C15"
+					sc.Checks = nil
+					sc.ExpectPresent = nil
+					ps = append(ps, sc)
+				}
+			}
+			return []run{{Pkg: "./cache", Scenario: "cache/sched", Params: ps, K: k, E: 1, Horizon: 5000, Race: true}}
+		},
+	}
 }
 
 type seq struct {
